@@ -114,6 +114,8 @@ def impl_pair(cfg1, o1, cfg2, o2, rng, hook=None):
         out += [out[9], out[10]]
         # and of the Compose pass
         out.append(out[11])
+        # and of the Transform pass
+        out.append(out[12])
         if hook is not None:
             hook(t1, t2, s1, s2, kw1, kw2, out)
         return tuple(out)
